@@ -38,6 +38,7 @@ func (tp *ThreadPool) initThreadPool(threadCount, queueSize int, opts ...Option)
 
 func threadWorker(thread *Thread, queue chan *Promise) {
 	for task := range queue {
+		verifAsync("worker:dequeue", nil, task, thread)
 		switch body := task.Body.(type) {
 		case *Generator:
 			executeBytecodePromise(thread, queue, task)
@@ -48,6 +49,7 @@ func threadWorker(thread *Thread, queue chan *Promise) {
 		}
 
 		thread.state = idleState
+		verifAsync("worker:done", nil, task, thread)
 	}
 }
 
@@ -57,10 +59,12 @@ func executeBytecodePromise(thread *Thread, queue chan *Promise, task *Promise) 
 	switch thread.state {
 	case awaitState:
 		awaitedPromise := (*Promise)(thread.peek().Pointer())
+		verifAsync("await:suspended", awaitedPromise, task, thread)
 		awaitedPromise.RegisterContinuationUnsafe(task)
 
 		// promise has been locked in the VM
 		awaitedPromise.m.Unlock()
+		verifAsync("await:unlocked", awaitedPromise, task, thread)
 	case errorState:
 		err := thread.popGet()
 		stackTrace := thread.GetStackTrace()
@@ -122,7 +126,9 @@ func (t *ThreadPool) ThreadCount() int {
 }
 
 func (t *ThreadPool) AddTask(promise *Promise) {
+	verifAsync("addtask:before", nil, promise, nil)
 	t.TaskQueue <- promise
+	verifAsync("addtask:after", nil, promise, nil)
 }
 
 func (t *ThreadPool) Close() {
